@@ -39,9 +39,12 @@ func vhC05(rules lexer.Rules, gen lexer.Definition) {
 	rtoks, rerr := lexer.ConsumeAll(rl)
 	vTrackPossessive(false)
 
+	// the runtime lexer has finished on this input, so must the generated one
+	vStepLimit(1000000, "C05: generated lexer did not terminate on an input the runtime lexer finishes")
 	gl, lerr := gen.(lexer.StringDefinition).LexString("f", in)
 	vAssert(lerr == nil, "C05: generated LexString failed")
 	gtoks, gerr := lexer.ConsumeAll(gl)
+	vStepLimit(0, "")
 
 	if vPossessiveDiffered() {
 		// the documented tolerated difference: possessive matching of some
